@@ -144,6 +144,14 @@ def inputs(ctx):
                 ms0 = (int(render.digs(sp["h"]) or "0") * 3600 + int(render.digs(sp["m"])) * 60
                        + int(render.digs(sp["s"]))) * 1000 + int(render.digs(sp["frac"]))
                 inp["shift"] = -rng.randrange(0, ms0 + 1)
+            elif r < 0.6:
+                # a backward shift beyond the first cues: with timing errors ignored every instant is
+                # still the denoted one plus the shift (negative), not clamped or dropped
+                sp = cues[0]["b"]
+                ms0 = (int(render.digs(sp["h"]) or "0") * 3600 + int(render.digs(sp["m"])) * 60
+                       + int(render.digs(sp["s"]))) * 1000 + int(render.digs(sp["frac"]))
+                inp["shift"] = -rng.randrange(ms0 + 1, ms0 + 10 ** 6)
+                inp["strict"] = False
             if rng.random() < 0.3:
                 inp["lang"] = "es-419"
         elif fmt == "MicroDVD":
